@@ -79,6 +79,9 @@ ASSUME = ["conditions, right-hand sides and assignments are built programmatical
 
 def replay(ctx, path):
     f = json.load(open(path))
+    if f.get("model") == "forward":
+        p = subprocess.run([c.VH, "replay-one", "forward", path])
+        return 1 if p.returncode == 1 else (0 if p.returncode == 0 else 2)
     if isinstance(f.get("actual"), dict):
         tmp = ctx.path("one.ndjson")
         open(tmp, "w").write(json.dumps(f["actual"]) + "\n")
@@ -86,3 +89,15 @@ def replay(ctx, path):
     else:
         print(f.get("actual"))
     return 1
+
+
+def graph(ctx, quick):
+    """L2: programs assembled by ForwardGen.tla from a 10-rule table; expected outcomes computed by the interpreter in TLC."""
+    c.tlc_l1(ctx, "ForwardGen.tla", "MC_ForwardGen.cfg", workers=4, timeout=900)
+    for w in ("Reach_TwoPasses", "Reach_Err"):
+        c.tlc_l1(ctx, "ForwardGen.tla", "MC_ForwardGen_%s.cfg" % w, expect_violation=w, workers=2, timeout=900)
+    cfg = {"maxc": 3, "paths": ["k", "A.x", "A.y"]}
+    if quick:
+        c.graph_leg(ctx, "ForwardGen.tla", "forward", "Gen_ForwardGen.cfg", cfg, 300, 7, 0, "Sim_ForwardGen.cfg", 300, 9)
+    else:
+        c.graph_leg(ctx, "ForwardGen.tla", "forward", "Gen_ForwardGen_d4.cfg", cfg, 5000, 8, 0, "Sim_ForwardGen.cfg", 10000, 10, timeout=3000)
